@@ -823,6 +823,18 @@ pub(crate) fn check_if_response_is_matched(
             }
         }
     } else {
+        // The last n headers should be ended at the parent of the last header.
+        let last_last_n_header_number = headers[headers.len() - 1].header().number();
+        let last_number = last_header.header().number();
+        if last_last_n_header_number + 1 != last_number {
+            let errmsg = format!(
+                "the last n headers should be ended at block#{} but got block#{}",
+                last_number.saturating_sub(1),
+                last_last_n_header_number
+            );
+            return Err(StatusCode::MalformedProtocolMessage.with_context(errmsg));
+        }
+
         // Check if the sampled headers are subject to requested difficulties distribution.
         let first_last_n_total_difficulty: U256 =
             headers[reorg_count + sampled_count].total_difficulty();
